@@ -687,9 +687,21 @@ def terminator_count_rule(prog, chk):
     edges = cfgq.guard_edges(fn, is_nl)
     cr_labels = [b.id for b in fn.blocks.values() if b.label and b.label.get("k") == "case" and b.label.get("v") == CR]
     pair_counters = set()
-    if edges and cr_labels:
+    # the CR arm written with if / else: the blocks behind the true outcome of `ch == UCHAR_CR`
+    def is_cr(cnd):
+        t = cfgq.cmp_test(cnd, lambda e: True)
+        if t and t[1] == CR and t[0] in ("==", "!="):
+            return "true" if t[0] == "==" else "false"
+        return None
+    cr_edges = cfgq.guard_edges(fn, is_cr)
+    cr_starts = list(cr_labels) + [fn.blocks[bid].succs[idx] for (bid, idx) in cr_edges if fn.blocks[bid].succs[idx] is not None]
+    if edges and cr_starts:
         heads = {b.id for b in fn.blocks.values() if b.term and b.term.get("k") == "SwitchStmt"}
-        in_cr_arm = cfgq.reach(fn, cr_labels, barrier_blocks=heads)
+        loop_heads = set()
+        from .. import loops as _loops
+        for lp in _loops.natural_loops(fn):
+            loop_heads.add(lp.header)
+        in_cr_arm = cfgq.reach(fn, cr_starts, barrier_blocks=heads | loop_heads)
         incs = [(b, path(strip(n.get("lhs")))) for (b, i, r, n) in fn.eval_sites("asg")
                 if n.get("op") == "+=" and const(n.get("rhs")) == 1]
         incs += [(b, path(strip(n.get("e")))) for (b, i, r, n) in fn.eval_sites("un") if n.get("op") in ("pre++", "post++")]
